@@ -15,6 +15,12 @@ Qed.
 Lemma all_good_c_map fs : all_good_c (map CGood fs) = Some fs.
 Proof. induction fs as [|f r IH]; [reflexivity|]. cbn [map all_good_c]. now rewrite IH. Qed.
 
+(* a file that holds at least one line is read as found *)
+Lemma seen_cons (x : cline) r : seen (Some (x :: r)) = Some (x :: r).
+Proof. reflexivity. Qed.
+Lemma MrFaithful_of_file l ls full : ls <> [] -> MrFileFaithful l ls -> MrFaithful l (Some ls) full.
+Proof. intros Ne F. destruct ls as [|x r]; [contradiction|]. exact F. Qed.
+
 (* what a rebuild writes is faithful *)
 Lemma projection_file_faithful l : MrFileFaithful l (map CGood (filter mr_keep l)).
 Proof.
@@ -38,7 +44,7 @@ Qed.
 Lemma effective_faithful l mr full m :
   MrFaithful l mr full -> mr_effective mr full = Some (Some m) -> MrFileFaithful l m.
 Proof.
-  unfold MrFaithful, mr_effective. destruct mr as [ls|].
+  unfold MrFaithful, mr_effective. destruct (seen mr) as [ls|].
   - intros F E. inversion E; subst. exact F.
   - destruct full as [fl|]; [|discriminate].
     destruct (all_good_c fl) as [fs|] eqn:G; [|discriminate]. intros F E. rewrite (F fs eq_refl) in E.
@@ -204,7 +210,7 @@ End Loader.
 Lemma no_caches_is_replay r P texts ks l a :
   compile_fast r P texts ks None None None l a = compile P texts l a.
 Proof.
-  unfold compile_fast, input_fast, mr_effective, tail_loop, after_loop, compile.
+  unfold compile_fast, input_fast, mr_effective, seen, tail_loop, after_loop, compile.
   destruct ks; cbn [tail_loop tail_round]; destruct (cut_point l a); try reflexivity;
     now rewrite checkpoint_projection_agrees.
 Qed.
@@ -255,7 +261,7 @@ Proof.
 Qed.
 
 Lemma cc_mr_faithful : MrFaithful cc_log (Some cc_mr) cc_full.
-Proof. exact (projection_file_faithful cc_log). Qed.
+Proof. apply MrFaithful_of_file; [vm_compute; discriminate|]. exact (projection_file_faithful cc_log). Qed.
 
 Lemma cc_absent_faithful : MrFaithful cc_log None cc_full.
 Proof. intros fs G. rewrite all_good_c_map in G. now inversion G. Qed.
@@ -265,13 +271,15 @@ Proof. intros f H. exact (head_of_projection cc_log f H). Qed.
 
 Lemma cc_damaged_faithful : MrFaithful cc_log (Some cc_mr_damaged) cc_full.
 Proof.
-  unfold MrFaithful, cc_mr_damaged. apply (damaged_file_faithful cc_log (firstn 12%nat cc_proj)).
+  apply MrFaithful_of_file; [vm_compute; discriminate|].
+  unfold cc_mr_damaged. apply (damaged_file_faithful cc_log (firstn 12%nat cc_proj)).
   unfold cc_proj. symmetry. apply firstn_skipn.
 Qed.
 
 Lemma cc_torn_faithful : MrFaithful cc_log (Some cc_mr_torn) cc_full.
 Proof.
-  unfold MrFaithful, cc_mr_torn. apply (damaged_file_faithful cc_log cc_proj).
+  apply MrFaithful_of_file; [vm_compute; discriminate|].
+  unfold cc_mr_torn. apply (damaged_file_faithful cc_log cc_proj).
   unfold cc_proj. symmetry. apply app_nil_r.
 Qed.
 
@@ -483,7 +491,7 @@ Qed.
 Lemma effective_comp_faithful l comp full cl fs :
   CompFaithfulC l comp full -> comp_effective comp full = Some (Some cl) -> all_good_c cl = Some fs -> fs = filter is_ckpt l.
 Proof.
-  unfold CompFaithfulC, comp_effective. destruct comp as [ls|].
+  unfold CompFaithfulC, comp_effective. destruct (seen comp) as [ls|].
   - intros F E G. inversion E; subst cl. exact (F fs G).
   - destruct full as [fl|]; [|discriminate]. destruct (all_good_c fl) as [f0|] eqn:G0; [|discriminate].
     intros F E G. rewrite (F f0 eq_refl) in E.
@@ -597,10 +605,22 @@ Definition ck_comp_recreated : list cline := [CGood (mkf 9 (BCkpt true 4 1))].  
 Definition ck_comp_damaged : list cline := [CBad; CGood (mkf 10 (BCkpt true 8 2))].
 Definition ck_idx_garbage : list cline := [CBad].
 
-Lemma comp_projection_faithful l full : CompFaithfulC l (Some (map CGood (filter is_ckpt l))) full.
-Proof. intros fs G. rewrite all_good_c_map in G. now inversion G. Qed.
+Lemma CompFaithfulC_of_file l ls full :
+  ls <> [] -> (forall fs, all_good_c ls = Some fs -> fs = filter is_ckpt l) -> CompFaithfulC l (Some ls) full.
+Proof. intros Ne F. destruct ls as [|x r]; [contradiction|]. exact F. Qed.
+Lemma comp_projection_faithful l full :
+  filter is_ckpt l <> [] -> CompFaithfulC l (Some (map CGood (filter is_ckpt l))) full.
+Proof.
+  intros Ne. apply CompFaithfulC_of_file.
+  - destruct (filter is_ckpt l); [contradiction|discriminate].
+  - intros fs G. rewrite all_good_c_map in G. now inversion G.
+Qed.
 Lemma comp_with_bad_line_faithful l full u v : CompFaithfulC l (Some (u ++ CBad :: v)) full.
-Proof. intros fs G. rewrite all_good_c_bad in G. discriminate. Qed.
+Proof.
+  apply CompFaithfulC_of_file.
+  - destruct u; discriminate.
+  - intros fs G. rewrite all_good_c_bad in G. discriminate.
+Qed.
 Lemma idx_projection_faithful l : IdxFaithful l (Some (map CGood (filter is_ckpt l))).
 Proof. intros fs L. exact (idx_load_map _ _ L). Qed.
 Lemma idx_unloadable_faithful l es : idx_load es = None -> IdxFaithful l (Some es).
@@ -628,7 +648,7 @@ Proof.
   split; [vm_compute; reflexivity|]. split; [vm_compute; reflexivity|].
   split; [exact (projection_file_faithful ck_log)|].
   split; [intros f H; exact (head_of_projection ck_log f H)|].
-  split; [exact (comp_projection_faithful ck_log ck_full)|].
+  split; [apply (comp_projection_faithful ck_log ck_full); vm_compute; discriminate|].
   split; [exact (comp_with_bad_line_faithful ck_log ck_full [] [CGood (mkf 10 (BCkpt true 8 2))])|].
   split; [intros fs G; rewrite all_good_c_map in G; now inversion G|].
   split; [exact (idx_projection_faithful ck_log)|].
